@@ -16,11 +16,21 @@
      - a library: collada.util.IndexedList (Model.IndexedList, the C14 family's model) with
        L[key] (dict first, then list position for non-strings), L.get(key), key in L;
      - the scene: Scene.objects(kind) = Model.Traverse.scene_objects (the C12 family's model).
-   The hidden fields are exactly `c_tri` and `c_img`; [cobs] is everything else.
+     - a primitive with its sources (the C10 family's Model.PrimCtor.prim): binding
+       (Primitive.bind / BoundGeometry.primitives) is Model.PrimIter.bind - a pure function that
+       produces NEW transformed vertex/normal arrays; the model gives them fresh location ids in
+       a store of allocated arrays ([f_store], [f_next]) so that ownership can be stated;
+       bound.shapes()/triangles()/polygons()/lines() = PrimIter.shapes of the bound primitive,
+       prim[i] = PrimIter.getitem_z, iteration = PrimIter.iter of the unbound primitive;
+     - Polygon.triangles() = Model.Triangulate.poly_triangles on the polygon's rows;
+     - Node.objects(kind, matrix) = Model.Traverse.objects on one node with a matrix;
+     - str()/repr(): a function of the sizes they print.
+   The hidden fields are `c_tri`, `c_img` and the store of allocated arrays; [cobs] is everything else.
    SPEC: histories with the queries erased ([saves_only_s]). *)
 From Coq Require Import List Bool ZArith NArith.
 From PC Require Import Base.Outcome Base.Py Base.Mat Gen.Transforms Model.Strips Model.Triangulate
   Model.IndexedList Model.Traverse.
+From PC Require Model.PrimCtor Model.PrimIter.
 Import ListNotations.
 
 (* ---- state-based histories *)
@@ -52,6 +62,8 @@ Section Concrete.
   Definition row := list N.                         (* one index row: an index per input offset *)
   Definition input := (N * N * N * option N)%type.  (* offset, semantic, source, set *)
 
+  Definition zrows := list (list Z).
+
   Record cdoc := CDoc {
     d_vcounts : list nat;                     (* Polylist.vcounts *)
     d_rows : list row;                        (* Polylist.index, row by row *)
@@ -60,13 +72,16 @@ Section Concrete.
     d_scene : list (snode R);                 (* Scene.nodes *)
     d_file : N;                               (* what the file loader returns for the image's path *)
     d_xml : list N;                           (* the XML the last save produced *)
+    d_prim : PrimCtor.prim;                   (* a primitive with the source arrays it indexes *)
     c_tri : option (list (tri row));          (* Polylist._triangleset *)
-    c_img : option N                          (* CImage._data *)
+    c_img : option N;                         (* CImage._data *)
+    f_store : list (N * zrows);               (* arrays allocated by binding: location id -> content *)
+    f_next : N                                (* next free location id *)
   }.
 
-  (* everything but the two caches *)
+  (* everything but the caches and the allocated arrays *)
   Definition cobs (s : cdoc) :=
-    (d_vcounts s, d_rows s, d_sources s, d_lib s, d_scene s, d_file s, d_xml s).
+    (d_vcounts s, d_rows s, d_sources s, d_lib s, d_scene s, d_file s, d_xml s, d_prim s).
 
   Inductive lookup := LItem (k : key) | LGet (a : N) | LIn (a : N).
 
@@ -75,14 +90,25 @@ Section Concrete.
   | QImageData
   | QInputList
   | QLookup (l : lookup)
-  | QSceneObjects (kind : nat).
+  | QSceneObjects (kind : nat)
+  | QBind (m : zrows) (mm : list (N * N))            (* prim.bind(matrix, materials) *)
+  | QShapes (m : zrows) (mm : list (N * N))          (* bound.shapes() / triangles() / polygons() / lines() *)
+  | QUnboundItem (z : Z)                             (* prim[i] *)
+  | QUnboundIter                                     (* for x in prim *)
+  | QPolygonTriangles (i : nat)                      (* polylist[i].triangles() *)
+  | QNodeObjects (kind : nat) (m : option (mat R)) (i : nat)   (* scene.nodes[i].objects(kind, m) *)
+  | QPrint.                                          (* str()/repr() *)
 
   Inductive cres :=
   | RTri (r : outcome (list (tri row)))
   | RData (d : N)
   | RInputs (l : list input)
   | RLookup (r : outcome (option N))
-  | RBound (l : list (bound R)).
+  | RBound (l : list (bound R))
+  | RPrim (p : PrimIter.iprim)
+  | RItems (r : outcome (list PrimIter.item))
+  | RItem (r : outcome PrimIter.item)
+  | RStr (a b c : nat).
 
   (* IndexedList.__getitem__: the dict first; a string that is not a key raises; anything else is
      a list position.  get: the dict or None.  __contains__ (by id): the dict. *)
@@ -100,11 +126,29 @@ Section Concrete.
     end.
 
   Definition set_tri (s : cdoc) (t : option (list (tri row))) : cdoc :=
-    CDoc (d_vcounts s) (d_rows s) (d_sources s) (d_lib s) (d_scene s) (d_file s) (d_xml s) t (c_img s).
+    CDoc (d_vcounts s) (d_rows s) (d_sources s) (d_lib s) (d_scene s) (d_file s) (d_xml s) (d_prim s) t (c_img s)
+         (f_store s) (f_next s).
   Definition set_img (s : cdoc) (d : option N) : cdoc :=
-    CDoc (d_vcounts s) (d_rows s) (d_sources s) (d_lib s) (d_scene s) (d_file s) (d_xml s) (c_tri s) d.
+    CDoc (d_vcounts s) (d_rows s) (d_sources s) (d_lib s) (d_scene s) (d_file s) (d_xml s) (d_prim s) (c_tri s) d
+         (f_store s) (f_next s).
   Definition set_xml (s : cdoc) (x : list N) : cdoc :=
-    CDoc (d_vcounts s) (d_rows s) (d_sources s) (d_lib s) (d_scene s) (d_file s) x (c_tri s) (c_img s).
+    CDoc (d_vcounts s) (d_rows s) (d_sources s) (d_lib s) (d_scene s) (d_file s) x (d_prim s) (c_tri s) (c_img s)
+         (f_store s) (f_next s).
+  Definition set_store (s : cdoc) (st : list (N * zrows)) (nx : N) : cdoc :=
+    CDoc (d_vcounts s) (d_rows s) (d_sources s) (d_lib s) (d_scene s) (d_file s) (d_xml s) (d_prim s) (c_tri s) (c_img s)
+         st nx.
+
+  Definition rows_of (v : option (zrows * list N)) : zrows := match v with Some (r, _) => r | None => [] end.
+
+  (* binding allocates the transformed vertex and normal arrays at two fresh locations *)
+  Definition bind_locs (s : cdoc) : list N := [f_next s; (f_next s + 1)%N].
+  Definition alloc_bound (s : cdoc) (bp : PrimIter.iprim) : cdoc :=
+    set_store s ((f_next s, rows_of (PrimIter.ip_vertex bp)) ::
+                 ((f_next s + 1)%N, rows_of (PrimIter.ip_normal bp)) :: f_store s) (f_next s + 2)%N.
+
+  (* the user writes into an allocated array *)
+  Definition cwrite (l : N) (v : zrows) (s : cdoc) : cdoc :=
+    set_store s (map (fun kv => if N.eqb (fst kv) l then (l, v) else kv) (f_store s)) (f_next s).
 
   Definition cexec (q : cquery) (s : cdoc) : cdoc * cres :=
     match q with
@@ -124,18 +168,33 @@ Section Concrete.
     | QInputList => (s, RInputs (flat_map snd (d_sources s)))
     | QLookup l => (s, RLookup (il_lookup (d_lib s) l))
     | QSceneObjects k => (s, RBound (scene_objects O k (d_scene s)))
+    | QBind m mm => let bp := PrimIter.bind (d_prim s) m mm in (alloc_bound s bp, RPrim bp)
+    | QShapes m mm => let bp := PrimIter.bind (d_prim s) m mm in (alloc_bound s bp, RItems (PrimIter.shapes bp))
+    | QUnboundItem z => (s, RItem (PrimIter.getitem_z (PrimIter.unbound (d_prim s)) z))
+    | QUnboundIter => (s, RItems (PrimIter.iter (PrimIter.unbound (d_prim s))))
+    | QPolygonTriangles i => (s, RTri (poly_triangles (nth i (polygon_rows (d_vcounts s) (d_rows s)) [])))
+    | QNodeObjects k m i => (s, RBound (match nth_error (d_scene s) i with
+                                        | Some n => objects O k m n | None => [] end))
+    | QPrint => (s, RStr (length (items (d_lib s))) (length (d_vcounts s)) (PrimIter.ilen (PrimIter.unbound (d_prim s))))
     end.
 
   (* save: the XML is rewritten from the model (vcounts, rows flattened, library ids); the caches
-     are neither read nor written *)
+     and the allocated arrays are neither read nor written *)
   Definition xml_of (s : cdoc) : list N :=
     map N.of_nat (d_vcounts s) ++ concat (d_rows s) ++ map oid (items (d_lib s)).
   Definition csave (s : cdoc) : cdoc * list N := (set_xml s (xml_of s), xml_of s).
 
-  (* declared hidden write set of a query, as the two cache fields *)
-  Inductive cfield := FTriCache | FImgCache.
+  (* declared hidden write set of a query: the two cache fields and freshly allocated arrays *)
+  Inductive cfield := FTriCache | FImgCache | FFresh.
   Definition cdeclared (q : cquery) : list cfield :=
-    match q with QTriangleset => [FTriCache] | QImageData => [FImgCache] | _ => [] end.
+    match q with
+    | QTriangleset => [FTriCache] | QImageData => [FImgCache]
+    | QBind _ _ | QShapes _ _ => [FFresh]
+    | _ => []
+    end.
+
+  (* allocated locations are below the allocator *)
+  Definition cwf (s : cdoc) : Prop := forall k v, In (k, v) (f_store s) -> (k < f_next s)%N.
 
   (* cache coherence: a filled cache holds what the observable part determines *)
   Definition ccoherent (s : cdoc) : Prop :=
@@ -143,8 +202,13 @@ Section Concrete.
     (forall d, c_img s = Some d -> d = d_file s).
 
   (* a freshly loaded or constructed document: nothing cached *)
-  Definition cfresh (s : cdoc) : Prop := c_tri s = None /\ c_img s = None.
+  Definition cfresh (s : cdoc) : Prop := c_tri s = None /\ c_img s = None /\ f_store s = [].
 End Concrete.
 
 Arguments cexec {R}. Arguments csave {R}. Arguments cobs {R}. Arguments ccoherent {R}. Arguments cfresh {R}.
-Arguments c_tri {R}. Arguments c_img {R}.
+Arguments cdeclared {R}. Arguments QTriangleset {R}. Arguments QImageData {R}. Arguments QInputList {R}.
+Arguments QLookup {R}. Arguments QSceneObjects {R}. Arguments QBind {R}. Arguments QShapes {R}.
+Arguments QUnboundItem {R}. Arguments QUnboundIter {R}. Arguments QPolygonTriangles {R}.
+Arguments QNodeObjects {R}. Arguments QPrint {R}.
+Arguments c_tri {R}. Arguments c_img {R}. Arguments f_store {R}. Arguments f_next {R}. Arguments cwrite {R}.
+Arguments bind_locs {R}. Arguments cwf {R}. Arguments d_prim {R}.
